@@ -4,6 +4,8 @@ import (
 	"fmt"
 	"math/rand"
 
+	googleproto "google.golang.org/protobuf/proto"
+
 	"github.com/projectcalico/calico/felix/generictables"
 	"github.com/projectcalico/calico/felix/proto"
 	"github.com/projectcalico/calico/felix/rules"
@@ -36,6 +38,27 @@ type layout struct {
 	Policies map[string]*polSpec
 	Profiles []*polSpec // In/Out rules; Name = profile id
 	Kind     string     // "wep" | "hep"
+}
+
+func cloneRules(in []*proto.Rule) []*proto.Rule {
+	var out []*proto.Rule
+	for _, r := range in {
+		out = append(out, googleproto.Clone(r).(*proto.Rule))
+	}
+	return out
+}
+
+// clone: a deep copy taken before anything is rendered; the reference is exported from it, while the renderer
+// gets the original objects (rendering must not depend on, or change, what an earlier render did to them).
+func (l *layout) clone() *layout {
+	c := &layout{Tiers: l.Tiers, Policies: map[string]*polSpec{}, Kind: l.Kind}
+	for n, p := range l.Policies {
+		c.Policies[n] = &polSpec{Name: p.Name, Staged: p.Staged, In: cloneRules(p.In), Out: cloneRules(p.Out)}
+	}
+	for _, p := range l.Profiles {
+		c.Profiles = append(c.Profiles, &polSpec{Name: p.Name, In: cloneRules(p.In), Out: cloneRules(p.Out)})
+	}
+	return c
 }
 
 func (p *polSpec) id() *types.PolicyID {
@@ -107,7 +130,10 @@ func (l *layout) semProfiles(ingress bool) [][]M {
 }
 
 // renderEndpoint renders everything an endpoint's chains can reach and emits one case per endpoint chain.
-func renderEndpoint(log *tracelog.Log, t *int, l *layout, cfg rules.Config, nft bool, ipv uint8, sets []*polgen.IPSet, origin string, dirFilter int) error {
+func renderEndpoint(log *tracelog.Log, t *int, l *layout, cfg rules.Config, nft bool, ipv uint8, sets []*polgen.IPSet, origin string, dirFilter int, ref *layout) error {
+	if ref == nil {
+		ref = l.clone()
+	}
 	rr := rules.NewRenderer(cfg, nft)
 	prog := nfparse.NewProgram(flavourName(nft))
 	add := func(cs ...*generictables.Chain) error {
@@ -196,7 +222,7 @@ func renderEndpoint(log *tracelog.Log, t *int, l *layout, cfg rules.Config, nft 
 		}
 		log.Reset(*t, M{
 			"kind": "c09", "origin": origin, "flavour": prog.Flavour, "ipv": int(ipv), "ep": l.Kind, "entry": e.chain,
-			"ingress": e.ingress, "ctype": e.ctype, "tiers": l.semTiers(e.ingress), "profiles": l.semProfiles(e.ingress),
+			"ingress": e.ingress, "ctype": e.ctype, "tiers": ref.semTiers(e.ingress), "profiles": ref.semProfiles(e.ingress),
 			"ipsets": byID, "ksets": byName, "prog": prog, "marks": marksJSON(), "deny": deny,
 			"flowlogs": cfg.FlowLogsEnabled, "nchains": len(prog.Chains),
 		})
@@ -437,6 +463,31 @@ func layoutFromBeh(b map[string]any, ipv uint8) *layout {
 	return l
 }
 
+// mixNets gives up to three rules of the layout a source (or destination) CIDR list that mixes both families.
+func mixNets(rnd *rand.Rand, l *layout) {
+	n := 0
+	for _, name := range sortedKeys(l.Policies) {
+		p := l.Policies[name]
+		for _, rs := range [][]*proto.Rule{p.In, p.Out} {
+			for _, r := range rs {
+				if n >= 3 || r.IpVersion != 0 || r.Icmp != nil || r.NotIcmp != nil || len(r.SrcNet)+len(r.DstNet) > 0 || !chance(rnd, 50) {
+					continue
+				}
+				lst := []string{"fd00:1::/32", "10.1.0.0/16"}
+				if chance(rnd, 40) {
+					lst = []string{"10.1.0.0/16", "fd00:1::/32"}
+				}
+				if chance(rnd, 50) {
+					r.SrcNet = lst
+				} else {
+					r.DstNet = lst
+				}
+				n++
+			}
+		}
+	}
+}
+
 func runC09(env tracelog.Env, log *tracelog.Log) error {
 	t := 0
 	behs, err := tracelog.LoadBehaviours(env.BehPath)
@@ -456,7 +507,7 @@ func runC09(env tracelog.Env, log *tracelog.Log) error {
 		cfg := baseConfig()
 		cfg.FlowLogsEnabled = i%2 == 1
 		l := layoutFromBeh(beh[0], ipv)
-		if err := renderEndpoint(log, &t, l, cfg, (i/2)%2 == 1, ipv, nil, "tlc", 1+(i/8)%2); err != nil {
+		if err := renderEndpoint(log, &t, l, cfg, (i/2)%2 == 1, ipv, nil, "tlc", 1+(i/8)%2, nil); err != nil {
 			return fmt.Errorf("layout %d: %v", i, err)
 		}
 	}
@@ -476,9 +527,20 @@ func runC09(env tracelog.Env, log *tracelog.Log) error {
 		if chance(rnd, 30) {
 			cfg.FilterAllowAction = "RETURN"
 		}
-		for _, nft := range []bool{false, true} {
-			if err := renderEndpoint(log, &t, l, cfg, nft, ipv, sg.Sets(), "seeded", 0); err != nil {
-				return fmt.Errorf("seeded layout %d: %v", i, err)
+		// every 4th layout: some rules get CIDR lists mixing both families, and the SAME policy objects are rendered
+		// for the IPv4 table and then for the IPv6 table (the order of Felix's policy managers)
+		passes := []uint8{ipv}
+		if i%4 == 1 {
+			mixNets(rnd, l)
+			passes = []uint8{4, 6}
+		}
+		ref := l.clone()
+		for _, v := range passes {
+			fam := setsForFamily(sg.Sets(), v)
+			for _, nft := range []bool{false, true} {
+				if err := renderEndpoint(log, &t, l, cfg, nft, v, fam, "seeded", 0, ref); err != nil {
+					return fmt.Errorf("seeded layout %d: %v", i, err)
+				}
 			}
 		}
 	}
